@@ -26,17 +26,103 @@ def gen_cases(tier, seed, tag, per_group, n_pres, extra_random=0, special_bias=0
     return cases
 
 
+def moved_letters(no):
+    """Letters that some tabulated normalizer of the group maps to another letter (generation aid only)."""
+    from matid.data.symmetry_data import CHIRALITY_PRESERVING_EUCLIDEAN_NORMALIZERS as NT
+    moved = set()
+    for e in NT.get(no, []):
+        for k, v in e["permutations"].items():
+            if k != v:
+                moved.add(str(k)); moved.add(str(v))
+    return sorted(moved)
+
+
+def gen_letter_cases(tier, seed, tag, pairs_per_group, n_pres=2):
+    """Targeted sub-family: ordered pairs of Wyckoff letters that normalizers permute, the lighter species on the
+    second letter, plus a general orbit of a third species that pins the space group.  The ground-state search then
+    has to apply a non-trivial normalizer for many of these crystals.  MatID's tables are used for generation only."""
+    import sys as _sys
+    from harness import env as _env
+    if _env.REPO not in _sys.path[:1]:
+        _sys.path.insert(0, _env.REPO)
+    rng = np.random.default_rng([seed, tag, 99])
+    cases = []
+    cid = 10_000_000
+    for no in range(1, 231):
+        L = moved_letters(no)
+        pairs = [(a, b) for a in L for b in L if a != b]
+        if not pairs:
+            continue
+        if pairs_per_group and len(pairs) > pairs_per_group:
+            idx = rng.choice(len(pairs), size=pairs_per_group, replace=False)
+            pairs = [pairs[i] for i in idx]
+        for a, b in pairs:
+            s = int(rng.integers(1 << 31))
+            for j in range(n_pres):
+                cases.append({"kind": "letters", "crystal": cid, "group_no": no, "letters": [a, b], "seed": s, "pres": j, "group": j % 2})
+            cid += 1
+    return cases
+
+
+def make_letter_crystal(rng, no, letters, tol, tries=25):
+    from matid.data.symmetry_data import WYCKOFF_SETS
+    from oracles import exprs
+    from ase.spacegroup import crystal
+    from ase import Atoms
+    table = WYCKOFF_SETS[no]
+    discards = {}
+    for k in range(tries):
+        pts = []
+        for l in letters:
+            vals = {v: float(rng.uniform(0.06, 0.44)) for v in "xyz"}
+            pts.append(tuple(np.mod(exprs.evaluate(table[l]["expressions"][0], vals), 1.0)))
+        pts.append(tuple(rng.random(3)))
+        zs = sorted(int(z) for z in rng.choice(cg.SPECIES, size=3, replace=False))
+        symbols = [zs[1], zs[0], zs[2]]          # heavier on the first letter, lighter on the second, heaviest general
+        cellpar = cg.random_cellpar(rng, no)
+        sc = 1.0 + 0.5 * k / tries
+        cellpar = [x * sc for x in cellpar[:3]] + cellpar[3:]
+        a = None
+        for prim in (False, True):
+            try:
+                a = crystal(symbols, pts, spacegroup=no, cellpar=cellpar, onduplicates="error", primitive_cell=prim, symprec=1e-4)
+            except Exception as e:
+                discards["crystal():" + type(e).__name__] = discards.get("crystal():" + type(e).__name__, 0) + 1
+                a = None
+                break
+            if len(a) <= 140:
+                break
+        if a is None or len(a) > 140:
+            continue
+        if cg.min_distance(a) < 0.7:
+            discards["atoms_too_close"] = discards.get("atoms_too_close", 0) + 1
+            continue
+        a = Atoms(numbers=a.get_atomic_numbers(), positions=a.get_positions(), cell=a.get_cell().array, pbc=True)
+        ok, reason, ds = cg.stable(a, no, tol)
+        if not ok:
+            discards[reason] = discards.get(reason, 0) + 1
+            continue
+        meta = {"group": no, "cellpar": [round(x, 5) for x in cellpar], "basis": [list(map(float, p_)) for p_ in pts], "symbols": symbols,
+                "orbit_kinds": ["letter_%s" % letters[0], "letter_%s" % letters[1], "general"], "primitive_input": False,
+                "natoms": len(a), "system": cg.crystal_system(no), "tries": k + 1}
+        return a, meta, discards
+    return None, None, discards
+
+
 _cache = {}
 
 
 def crystal_for(case):
     """Deterministic regeneration of the crystal (cached per worker) and of the requested presentation."""
-    key = (case["group_no"], case["seed"], case.get("special_bias", 0.5))
+    key = (case["group_no"], case["seed"], case.get("special_bias", 0.5), tuple(case.get("letters", ())))
     if key not in _cache:
         if len(_cache) > 64:
             _cache.clear()
         rng = np.random.default_rng(case["seed"])
-        _cache[key] = cg.make_crystal(rng, case["group_no"], TOL, special_bias=case.get("special_bias", 0.5))
+        if case.get("kind") == "letters":
+            _cache[key] = make_letter_crystal(rng, case["group_no"], case["letters"], TOL)
+        else:
+            _cache[key] = cg.make_crystal(rng, case["group_no"], TOL, special_bias=case.get("special_bias", 0.5))
     atoms, meta, discards = _cache[key]
     if atoms is None:
         return None, None, None, discards
@@ -120,6 +206,8 @@ def run_crystal_case(case, want, exception_monitor, exception_key_prefix):
                       "%s raised %s" % (gname, msg), {"input": sym.describe(atoms), "group": case["group_no"], "symmetry_tol": TOL})
     out = rec.export()
     kinds = "+".join(sorted(set(k.rstrip("0123456789") for k in meta["orbit_kinds"])))
+    if case.get("kind") == "letters":
+        kinds = "letters:" + "".join(case["letters"])
     out["info"] = {"key": "%d|%s|%s|p%d" % (case["group_no"], kinds, len(atoms), case["pres"]), "nontrivial": True,
                    "classes": {"space_group": case["group_no"], "crystal_system": meta["system"], "orbit_kinds": kinds,
                                "presentation": "as_generated" if case["pres"] == 0 else
